@@ -135,7 +135,9 @@ pub fn eval_prefix(h: &[Msg], cut: usize) -> Option<(String, String)> {
     let frames_out = match crate::session::parse_frames(&o.raw) {
         Ok(f) => f,
         Err(e) => {
-            if on_boundary {
+            // `exit` outside the shutdown phase ends the process at once (ungraceful by
+            // definition): the responder may be cut off in the middle of a frame
+            if on_boundary && exp.exit_code != Some(1) {
                 return Some(("malformed-output".into(), e));
             }
             // a torn last frame is tolerated off a frame boundary: check the complete ones
